@@ -100,6 +100,15 @@ CHECKS['C06'] = (
     '(pickle copies) and real thread scheduling are runtime behaviour the pure model cannot exhibit; they are covered by the runs only.',
     BASE_NOTE + 'GIL atomicity of dict operations; pickle.', '6/C06')
 
+CHECKS['C12'] = (
+    'Lean 4 theorems on an exact-rational model (new exponents x(x/y)^i strictly outside the range on the requested side, even-tempered, n or none per '
+    'momentum, gate on two free outer primitives; truhlar targets form a chain, removal only removes) + differential execution against manip.py',
+    'Proof (on the model): diffuse_strictly_outside, steep_strictly_outside, even_tempered, newExponents_spec, target_chain, mem_target, '
+    'removePrimitive_only_removes; unit literal, month table and the inner make_general call regenerated from manip.py. Tie: the model plan (exact rationals) '
+    'vs the printed exponents of geometric_augmentation (within one unit of the 7th digit) and exact shell-list equality for truhlar_calendarize per element; '
+    'the rule itself is evaluated on the real results from the function sets (independent of the model). Partial: float evaluation and {:.6e} printing.',
+    BASE_NOTE + 'float rounding of the new exponents is outside the model.', '6/C12')
+
 NOT_YET = {}
 
 
